@@ -164,6 +164,24 @@ package cache
 //@   ensures error_is_a_miss [C13]: result1 != nil ==> !result0
 //@   ensures hit_is_complete [C13]: result0 ==> result1 == nil
 //@   ensures hit_means_every_member_was_restored [C13]: result0 ==> !stepfailed
+// cmdCache.Retrieve: a hit needs BOTH a completely unpacked archive and a retrieve command that exited cleanly.
+// The goroutine that waits for the command reports a clean exit only for a nil error from Wait, and then
+// interrupts a tar reader still waiting for data by closing the READ end of the pipe (the reader then fails with
+// ErrClosedPipe, a miss); closing the write end instead would hand it a clean EOF, which archive/tar accepts
+// at a member boundary, so a truncated entry would be a hit.
+//@ func (cmdCache).Retrieve
+//@   requires cache != nil && target != nil
+//@   opt nopanic=off
+//@   opt panics=allowed
+//@   callsite readTar trackresult unpacked bool: result0
+//@   returnsite hit_needs_a_complete_archive [C13]: result ==> unpacked && called("readTar")
+//@ func (cmdCache).Retrieve.lit#1
+//@   opt nopanic=off
+//@   opt panics=allowed
+//@   callsite (Cmd).Wait trackresult exited_cleanly bool: result == nil
+//@   callsite send clean_exit_only [C13]: arg_value ==> exited_cleanly && called("(Cmd).Wait")
+//@   callsite send reader_interrupted_first [C13]: called("(PipeReader).Close")
+//@   callsite (PipeWriter).Close the_write_end_is_never_closed_cleanly [C13]: false
 //@ func (httpCache).retrieve
 //@   requires cache != nil
 //@   opt nopanic=off
